@@ -208,9 +208,13 @@ def checked(check, case, ctx):
     what it was (dims, dtypes, values, attributes): no operation under test is documented to
     write into its input, and every property presupposes that reading does not change the data."""
     from vf.props import _util
+    from vf import specs
     _util.reset_opened()
-    check(case, ctx)
-    _util.verify_untouched(ctx)
+    try:
+        check(case, ctx)
+        _util.verify_untouched(ctx)
+    finally:
+        specs.release_files()
 
 
 def _make_body(sub, state, t0, ctx):
